@@ -319,6 +319,78 @@ def run(ctx: Ctx) -> None:
     ctx.rule("D7.6", "the scratch tables can hold every day number")
     _scratch_type(ctx)
     _final_agreement(ctx, fi)
+    _wiring(ctx, fi)
+
+
+def _wiring(ctx: Ctx, k: FuncInfo) -> None:
+    """`Errors.evaluate` hands the plan and, for every constraint parameter
+    of the kernel, the instance's field of the same name to `count_errors`
+    (the kernel is only the documented count *for the limits it is given*).
+    """
+    from sa.srcmodel import inline_locals
+    repo = ctx.repo
+    ev = repo.func(MOD, "Errors.evaluate")
+    rets = [r for r in ast.walk(ev.node) if isinstance(r, ast.Return)
+            and r.value is not None]
+    call = None
+    if len(rets) == 1:
+        rv = inline_locals(ev.node, rets[0].value)
+        while isinstance(rv, ast.Call) and isinstance(rv.func, ast.Name) \
+                and rv.func.id == "int" and len(rv.args) == 1:
+            rv = rv.args[0]
+        if isinstance(rv, ast.Call) and repo.resolve_expr(
+                ev.module, rv.func) is k:
+            call = rv
+    if call is None:
+        ctx.ob("D7.3", ev, ev.node, False,
+               "Errors.evaluate is not recognised as returning "
+               f"{k.name}(...)", construct="evaluate wiring")
+        return
+    bound: dict[str, ast.expr] = {}
+    for p_, a in zip(k.params, call.args):
+        bound[p_] = a
+    for kw in call.keywords:
+        if kw.arg:
+            bound[kw.arg] = kw.value
+    plan = ev.params[1] if len(ev.params) > 1 else "x"
+    problems: list[str] = []
+    unknown: list[str] = []
+    for pos, p_ in enumerate(k.params):
+        a = bound.get(p_)
+        if a is None:
+            problems.append(f"parameter `{p_}` receives no argument")
+            continue
+        a = inline_locals(ev.node, a)
+        if pos == 0:
+            if not (isinstance(a, ast.Name) and a.id == plan):
+                problems.append(f"the plan parameter `{p_}` receives "
+                                f"`{ast.unparse(a)}`, not `{plan}`")
+            continue
+        if not isinstance(a, ast.Attribute):
+            unknown.append(f"argument `{ast.unparse(a)[:60]}` for `{p_}` is "
+                           "not recognised as an instance field")
+            continue
+        if a.attr.strip("_") != p_.strip("_"):
+            if a.attr.strip("_") in {q.strip("_") for q in k.params}:
+                problems.append(
+                    f"field `{a.attr}` is passed as the kernel's `{p_}`")
+            else:
+                unknown.append(f"field `{a.attr}` passed as `{p_}` is not "
+                               "recognised")
+            continue
+        base = ast.unparse(a.value)
+        if p_.startswith("temp"):
+            continue
+        if base not in (f"{plan}.instance", f"{ev.params[0]}.instance"):
+            unknown.append(f"`{ast.unparse(a)}` is not recognised as a field "
+                           "of the plan's / the objective's instance")
+    ok = not problems and not unknown
+    ctx.ob("D7.3", ev, call, ok,
+           f"all {len(k.params)} kernel parameters receive the plan, the "
+           "instance's limits of the same name and the scratch tables"
+           if ok else "; ".join(problems + (
+               [] if problems else unknown)),
+           construct="evaluate wiring")
 
 
 # ------------------------------------------------------------------ D7.6
